@@ -82,6 +82,18 @@ func main() {
 			var d plyDesc
 			json.Unmarshal(in.Raw, &d)
 			run.Add(plyCase(d))
+		case "bigspz":
+			var d bigSpzDesc
+			json.Unmarshal(in.Raw, &d)
+			run.Add(bigSpzCase(d))
+		case "bigsplat":
+			var d bigSplatDesc
+			json.Unmarshal(in.Raw, &d)
+			run.Add(bigSplatCase(d))
+		case "bigply":
+			var d bigPlyDesc
+			json.Unmarshal(in.Raw, &d)
+			run.Add(bigPlyCase(d))
 		}
 	}
 	if run.Replay != "" {
@@ -95,6 +107,7 @@ func main() {
 	splatFixed(run)
 	spzFixed(run, r, thorough)
 	plyFixed(run)
+	bigFixed(run, thorough)
 
 	// ---- generated ----
 	for i := 0; i < run.N; i++ {
@@ -113,6 +126,7 @@ func main() {
 			run.Add(plyCase(genPly(r, run)))
 		}
 	}
+	spreadBig(run)
 	run.Finish()
 }
 
